@@ -63,6 +63,8 @@ def run_connect(chmax, flags, rxp, script, dflt, high_level=False, link_hook=Non
             h.connect()
             d = h.dev.data
             res["outcome"] = f"connected {d.chmax} {d.flags} {d.rxpadding}"
+        except (vsim.RealTimeLimit, vsim.TimeLimit, vsim.Spin, vsim.Deadlock):
+            raise            # the simulation's own verdict (non-termination), not an outcome of connect
         except Exception as e:
             res["outcome"] = "raised " + exc_name(e)
         res["t"] = sim.now
@@ -71,6 +73,8 @@ def run_connect(chmax, flags, rxp, script, dflt, high_level=False, link_hook=Non
         res["sent"] = decode_writes(link.writes)
         try:
             h.disconnect()
+        except (vsim.RealTimeLimit, vsim.TimeLimit, vsim.Spin, vsim.Deadlock):
+            raise
         except Exception as e:
             res["disc_exc"] = exc_name(e)
         res["t2"] = sim.now
